@@ -96,6 +96,14 @@ let get_sdop r : SDict.sdop =
   | "merge" -> let m = get_kvs r in let o = get_other r in SDict.OMerge (m, o)
   | t -> raise (Bad ("sdop:" ^ t))
 
+let get_fs r : (coq_N list * Reader.funit) list =
+  get_list r (fun r ->
+    let p = get_str r in
+    match next r with
+    | "native" -> let t = get_str r in (p, Reader.FNative t)
+    | "json" -> let t = get_kvs r in (p, Reader.FJson t)
+    | t -> raise (Bad ("funit:" ^ t)))
+
 (* ---- printer ------------------------------------------------------------------------------ *)
 let b = Buffer.create 65536
 let sp () = Buffer.add_char b ' '
@@ -168,6 +176,11 @@ let run_op (op : string) (r : rd) : unit =
   | "parse_string" -> let c = get_bool r in let d = get_str r in let n = get_int r in let t = get_str r in
              put_res (fun p -> put_sdict p.TokParser.pr_sd; sp (); put_int p.TokParser.pr_count)
                (TokParser.parse_string c d n t)
+  | "read_plain" -> let fs = get_fs r in let root = get_str r in let inc = get_bool r in let com = get_bool r in
+                    let n = get_int r in
+                    put_res (fun (s, c) -> put_sdict s; sp (); put_int c) (Reader.read_plain fs root inc com n)
+  | "json_parse" -> let d = get_str r in let n = get_int r in let t = get_kvs r in
+                    let p = Reader.json_parse d n t in put_sdict p.TokParser.pr_sd; sp (); put_int p.TokParser.pr_count
   | _ -> raise (Bad ("op:" ^ op))
 
 let () =
